@@ -88,9 +88,18 @@ impl<'a, D: DependencyProvider> Encoder<'a, D> {
         solvable_ids: impl IntoIterator<Item = SolvableOrRootId>,
     ) -> Result<Vec<ClauseId>, Box<dyn Any>> {
         // Queue the initial solvables for processing.
+        #[cfg(feature = "verif-hooks")]
+        let mut verif_encoded = Vec::new();
         for solvable_id in solvable_ids {
+            #[cfg(feature = "verif-hooks")]
+            verif_encoded.push(solvable_id.solvable().map_or(u32::MAX, |s| s.to_usize() as u32));
             self.queue_solvable(solvable_id);
         }
+        #[cfg(feature = "verif-hooks")]
+        self.state
+            .decision_tracker
+            .verif_events
+            .push(crate::verif::VerifEvent::Encode(verif_encoded));
 
         // Process all pending futures until there are no more.
         while let Some(future_result) = self.pending_futures.next().await {
